@@ -23,6 +23,7 @@ def check(ctx, prog):
     shaving.rule_shave_bound(ctx, prog)
     shaving.rule_shaving_loop(ctx, prog)
     propagators.rule_sole_candidate(ctx, prog)  # the one filtering clause decided here: a 'sole candidate' is counted against the bound it is forced to
+    propagators.rule_affine_bound(ctx, prog)  # the second: bounds derived by division (own contribution, side, sign, rounding)
     kinds.rule_index_kind(ctx, prog)  # a number is a variable index or a shared-domain index, not both
     model.rule_split(ctx, prog)  # scope: the parts enumerated by the multiprocessing solver stay inside (and exactly cover) the declared domain
     model.rule_decision_cover(ctx, prog)
